@@ -277,4 +277,41 @@ example : eval (F := F) .dev (fun _ => none) (.binOp .and (.int 0) (.ident "UNKN
     eval (F := F) .dev (fun _ => none) (.ident "UNKNOWN") = .err .invalidNode := by
   constructor <;> rfl
 
+/-! ## 6. Environments of expressions -/
+
+/-- a literal binding as the expression the Rust environment holds (`Expr::Integer/Float`) -/
+def litExpr : EvalResult F → Expr F
+  | .int i => .int i
+  | .float f => .float f
+
+/-- **evalX_literal_env**: `Expr::eval` over an environment of expressions (the real signature:
+`HashMap<K, V: Borrow<Expr>>`, modelled by `evalX`) coincides with `eval` when every binding is
+a literal, for every positive fuel — so all theorems above are about the real entry point
+called with literal bindings (what SwissKnife/Converter pass for variables and constants). -/
+theorem evalX_literal_env (p : Profile) (env : Env F) (fuel : Nat) (e : Expr F) :
+    evalX p (fun s => (env s).map litExpr) (fuel + 1) e = eval p env e := by
+  have lit : ∀ (envx : EnvX F) (fuel : Nat) (v : EvalResult F),
+      evalX p envx fuel (litExpr v) = .ok v := by
+    intro envx fuel v
+    cases v <;> simp [litExpr, evalX]
+  induction e with
+  | binOp k l r ihl ihr => cases k <;> simp only [evalX, eval, ihl, ihr]
+  | unOp k e ih => simp only [evalX, eval, ih]
+  | ite c t e ihc iht ihe => simp only [evalX, eval, ihc, iht, ihe]
+  | int i => simp [evalX, eval]
+  | float f => simp [evalX, eval]
+  | ident s =>
+    simp only [evalX, eval]
+    cases h : env s with
+    | none => simp
+    | some v => simp [lit]
+
+example : evalX (F := F) .dev (fun s => if s = "X" then some (.int 5) else none) 1
+    (.binOp .rem (.ident "X") (.int 0)) = .err .invalidData := by
+  have := evalX_literal_env (F := F) .dev (fun s => if s = "X" then some (.int 5) else none) 0
+    (.binOp .rem (.ident "X") (.int 0))
+  simp only [Option.map_if, litExpr] at this
+  rw [this]
+  rfl
+
 end CamVerif.C05
